@@ -3,11 +3,53 @@
 import json, os, sys
 HERE = os.path.dirname(os.path.dirname(os.path.abspath(__file__)))
 
+SIM_NOTE = ("Samples scenarios, not a proof. Tiny flows (1-2 blocks, 2-8 neurons, 1-5 epochs) and zoo models; virtual clock, "
+            "seeded interpreter entropy, line-event signal delivery, torch zip writer modelled as a sequential write, h5py as one "
+            "opaque event, multiprocessing.Pool replaced by the simulated pool except where labelled.")
+
 CHECKS = {
+ "C01": dict(level="exploration", ref="5.1",
+   text="Seeded swarm of complete standard-sampler runs (proposal classes, latent priors, reparameterisations, flow types, checkpoint triggers, pools), half with 1-3 kill-and-resume cycles; a live-set monitor checks exact replacement semantics, ordering, insertion index and dead-point bookkeeping after every consume_sample, after populate_live_points, after finalise and right after every resume.",
+   note=SIM_NOTE, technique="deterministic simulation: in-run invariant monitor over seeded runs with kill/resume fault plans"),
+ "C03": dict(level="exploration", ref="5.3",
+   text="Seeded swarm of importance-sampler runs, 60% with kill-and-resume cycles; after every iteration, after finalise and immediately after each resume the stored per-proposal densities are re-evaluated against the saved flows (nessai's route and an independent one), the mixture weights against sample fractions, logW = logU - logQ, unit hypercube membership and logL against the model.",
+   note=SIM_NOTE + " float32 flows: densities compared with atol 1e-3 / rtol 1e-4.", technique="deterministic simulation: density-table monitor in simulated INS runs across resume"),
+ "C04": dict(level="exploration", ref="5.4",
+   text="Store-level operation-and-restart histories (Hypothesis stateful machine, four strict x replace_all modes, 5-value likelihood alphabet, restart that drops and re-derives the density table) against a list reference model after every operation; plus the same invariants after every iteration of real simulated INS runs.",
+   note="Sequential-history end of the family: no scheduler nondeterminism inside the store; the history generator plays the environment and the only fault is the restart.", technique="deterministic simulation: seeded operation+restart histories vs executable reference model (Hypothesis stateful)"),
+ "C05": dict(level="exploration", ref="5.5",
+   text="End-of-run oracle over seeded runs of both samplers, uninterrupted and resumed up to 4 times: evidence, error and posterior weights recomputed from the returned samples alone (independent reimplementation + nessai's one-pass route), sample counts, order, model values, birth likelihoods, result-dictionary consistency.",
+   note=SIM_NOTE, technique="deterministic simulation: result oracle over seeded runs with kill/resume fault plans"),
+ "C09": dict(level="exploration", ref="5.9",
+   text="Safety clauses only: after every populate of every proposal class in simulated runs (bounds, finite logP equal to the model's, logL equal to the model's, pool size, each index handed out once, latent radius for truncated priors) and an assertion at the model seam on every raw likelihood call of either sampler that all points lie in the prior support. The distributional clause is NOT decided.",
+   note=SIM_NOTE + " 'Pool distributed as the prior restricted to the contour' needs statistical testing and is out of this technique family.", technique="deterministic simulation: pool / model-seam monitors in seeded runs"),
+ "C10": dict(level="exploration", ref="5.10",
+   text="Model.batch_evaluate_* driven through a simulated pool: exhaustive grid (batch 0..12 x chunk sizes x pool sizes 0..4 x four model kinds x physical/unit-hypercube) with seeded task schedules per pooled cell (all permutations for <=4 tasks), a Hypothesis stateful machine over call sequences with pool reconfiguration, real fork pools in the thorough tier. Values bitwise equal to pointwise evaluation, arguments seen exactly once, counter += N once.",
+   note="Simulated pool implements Pool.map semantics (results by task index); schedules sampled, grid enumerated.", technique="deterministic simulation: seeded task schedules of a cooperative pool + exhaustive small grid"),
  "C11": dict(level="fault_enumeration", ref="5.11",
-   text="Every fs event of the selected checkpoints and weights saves of a matrix of scenarios is a kill point (after the op, and inside each write at byte prefixes); after each kill a fresh process resumes and must construct, hold exactly the last completed checkpoint (digest equality), start afresh if none completed, and run on to a result that passes the in-run and result invariants. Complete for process-kill faults of the enumerated scenarios, sampled over scenarios.",
-   note="Process-kill model (data handed to the kernel survives; no power loss). torch's zip writer is modelled as one sequential write of the serialised bytes; h5py result files are one opaque event. Tiny flows and models.",
-   technique="deterministic simulation: fs-event trace recording + exhaustive kill-point enumeration with restart in a fresh process"),
+   text="Every fs event of the selected checkpoints and weights saves of a matrix of scenarios is a kill point (after the op, and inside each write at byte prefixes; thorough: every byte of the weights file); after each kill a fresh process resumes and must construct, hold exactly the last completed checkpoint (digest equality), start afresh if none completed, and run on to a result passing the in-run and result invariants. Complete for process-kill faults of the enumerated scenarios, sampled over scenarios.",
+   note="Process-kill model (data handed to the kernel survives; no power loss). " + SIM_NOTE, technique="deterministic simulation: fs-event trace recording + exhaustive kill-point enumeration with restart in a fresh process"),
+ "C12": dict(level="exploration", ref="5.12",
+   text="Kill/resume chains of length 1-5 for both samplers on a virtual clock: digest of the sampler when each checkpoint was written vs after FlowSampler(resume=True) in a fresh process (field by field); likelihood-evaluation counter = value resumed from + points counted at the model API; sampling/training/likelihood times inside a two-sided band that excludes downtime and double counting; resumed runs must complete and pass the run and result invariants.",
+   note=SIM_NOTE, technique="deterministic simulation: kill/resume chains with virtual clock, state digests and evaluation accounting"),
+ "C13": dict(level="fault_enumeration", ref="5.13",
+   text="The signal handler nessai registered is invoked before line events of a recorded run: every line event of ordinary iterations, of finalise and of checkpoint windows; first/second/last (+ seeded sample) occurrence of each distinct source line inside training/population windows; SIGTERM (thorough: also SIGINT, SIGALRM). Exit code, resumability in a fresh process, dead/live bookkeeping and result invariants; INS: last iteration-boundary checkpoint byte-identical.",
+   note="Line events are a superset of CPython 3.12 delivery points; repeated loop bodies are sampled, not proven equivalent. " + SIM_NOTE, technique="deterministic simulation: line-event pre-emption with signal injection, enumerated over recorded traces"),
+ "C14": dict(level="exploration", ref="5.14",
+   text="For each seeded scenario of both samplers a reference run, then variants that must give a byte-identical digest of samples / evidence / weights / insertion indices / evaluation count: another process, a fresh interpreter under another PYTHONHASHSEED, simulated pools of 1-4 workers under seeded task schedules, chunk sizes, parallel prior, real fork pools (thorough).",
+   note=SIM_NOTE, technique="deterministic simulation: same scenario under different schedules / processes / hash seeds, digest equality"),
+ "C15": dict(level="exploration", ref="5.15",
+   text="Per-iteration stopping-rule monitor for both samplers (compared quantity recomputed from the state / samples, first-allowed-stop check, history values) and repeated run / resume-after-finish histories (two re-runs in process, two fresh incarnations from the final checkpoint) with a likelihood-call counter at the model seam.",
+   note=SIM_NOTE + " Idempotence judged for converged runs only.", technique="deterministic simulation: stopping-rule monitor + rerun / resume-after-finish histories with a call-counting model seam"),
+ "C17": dict(level="exploration", ref="5.17",
+   text="In-run clauses only: at every iteration of simulated INS runs the chosen threshold is a live sample's likelihood, min_samples / min_remove / max_samples clamps hold, proposals train on >= min_samples, and the weighted quantile on each live set is monotone, in range and equals Harrell-Davis for equal weights.",
+   note=SIM_NOTE + " Arbitrary weight vectors that no run reaches are out of family.", technique="deterministic simulation: threshold monitor in seeded INS runs"),
+ "C19": dict(level="exploration", ref="5.19",
+   text="Real-run clause only: at the end of simulated runs (both samplers, hdf5/h5/json, resumed and capped histories, non-serialisable kwargs) the result file is read back and compared field by field with the in-memory results; config.json must parse.",
+   note=SIM_NOTE + " Generated dictionaries for the encoders are out of family.", technique="deterministic simulation: read-back oracle at the end of seeded runs incl. resumed histories"),
+ "C20": dict(level="exploration", ref="5.20",
+   text="Table of documented algorithmic options, each value alone and in a seeded pairwise covering array; verdict per run from the model seam and the step counter: rejected before the first sampling-phase likelihood evaluation, completed with result invariants, or violation (exception after sampling started / finished, or step budget exhausted = bounded liveness in simulated steps).",
+   note=SIM_NOTE + " Known findings (redraw/bootstrap/train_final_flow/svd) listed in known_findings.json.", technique="deterministic simulation: option swarm with step-budget liveness and model-seam phase detection"),
 }
 
 NA = {
@@ -57,7 +99,7 @@ def main():
                      "kind_free_text": "deterministic simulator with fault injection written for this task: forked incarnations of the whole sampler run, virtual clock, simulated disk with kill points, line-event signal injection, cooperative pool, model seam, seeded swarm scenarios, replay files"}],
         "checks": checks,
         "not_applicable": na,
-        "notes": "All checks: cwd=/verif, honour VERIF_SEED / VERIF_TIER / VERIF_JOBS; exit 0 held, 1 VIOLATION, 2 harness error. Known findings: /verif/known_findings.json. Two genuine defects were repaired with fix: commits in /repo (np.in1d; non-atomic weights save).",
+        "notes": "All checks: cwd=/verif, honour VERIF_SEED / VERIF_TIER / VERIF_JOBS; exit 0 held, 1 VIOLATION, 2 harness error. Known findings and fixed defects: /verif/known_findings.json (11 fix: commits in /repo). C09, C17, C19 are claimed for their in-run / safety clauses only (see level_note).",
     }
     with open(os.path.join(HERE, "MANIFEST.json"), "w") as f:
         json.dump(m, f, indent=1)
